@@ -1,7 +1,7 @@
 (* C16 - Cascade replicas: source resolution terminates, never self, never quorum.
    Theorems only; model Procs/Repair.v (findBestStreamFrom, repairCascadeNode). *)
 From Coq Require Import ZArith NArith Bool List.
-From Mysync Require Import Gtid.Interval Gtid.GtidSet Base.Prog Base.ProgFacts Base.Config Procs.NodeOps Procs.ActiveNodes Procs.Switchover Procs.Repair Procs.Manager Proofs.RepairProofs Proofs.PromotedProofs Procs.MgrQuorum Proofs.MgrQuorumProofs.
+From Mysync Require Import Gtid.Interval Gtid.GtidSet Base.Prog Base.ProgFacts Base.Config Procs.NodeOps Procs.ActiveNodes Procs.Switchover Procs.Repair Procs.Manager Proofs.RepairProofs Proofs.NearestAncestor Proofs.PromotedProofs Procs.MgrQuorum Proofs.MgrQuorumProofs.
 Import ListNotations.
 Open Scope Z_scope.
 
@@ -77,3 +77,38 @@ Theorem C16_cascade_entries_contribute_nothing_to_the_ha_counts : forall h ns cs
   count_alive_ha_slaves_within (h :: nodes) ((h, ns) :: cs) = count_alive_ha_slaves_within nodes ((h, ns) :: cs).
 Proof. exact cascade_entries_contribute_nothing. Qed.
 Print Assumptions C16_cascade_entries_contribute_nothing_to_the_ha_counts.
+
+(* "otherwise the nearest healthy ancestor along the configured chain, otherwise the master": the walk, step by step,
+   for every topology (path = the ancestors visited so far, the replica last).  An unhealthy configured source that is
+   not yet on the path is skipped, a healthy one is the answer, a source already on the path (a cycle anywhere in the
+   chain, not only through the replica) or not registered ends the walk at the master. *)
+Theorem C16_walk_skips_an_unhealthy_ancestor : forall cfg env topo self fuel x y rest sf cand,
+  assoc x topo = Some (Some sf) -> mem_host sf (x :: y :: rest) = false ->
+  assoc sf (re_state env) = Some cand -> source_healthy cfg cand = false ->
+  find_best_stream_from (S fuel) cfg env topo self (x :: y :: rest) =
+  find_best_stream_from fuel cfg env topo self (sf :: x :: y :: rest).
+Proof. intros. eapply walk_skips_unhealthy; eassumption. Qed.
+Print Assumptions C16_walk_skips_an_unhealthy_ancestor.
+
+Theorem C16_walk_stops_at_the_first_healthy_ancestor : forall cfg env topo self fuel x y rest sf cand,
+  assoc x topo = Some (Some sf) -> mem_host sf (x :: y :: rest) = false ->
+  assoc sf (re_state env) = Some cand -> source_healthy cfg cand = true ->
+  find_best_stream_from (S fuel) cfg env topo self (x :: y :: rest) = Ret sf.
+Proof. intros. eapply walk_stops_at_healthy; eassumption. Qed.
+Print Assumptions C16_walk_stops_at_the_first_healthy_ancestor.
+
+Theorem C16_cycle_among_ancestors_ends_at_the_master : forall cfg env topo self fuel x y rest sf,
+  assoc x topo = Some (Some sf) -> mem_host sf (x :: y :: rest) = true ->
+  find_best_stream_from (S fuel) cfg env topo self (x :: y :: rest) = Ret (re_master env).
+Proof. intros. eapply walk_cycle_is_master; eassumption. Qed.
+Print Assumptions C16_cycle_among_ancestors_ends_at_the_master.
+
+Theorem C16_first_step_skips_an_unhealthy_source_not_streamed_from : forall cfg env topo self fuel sf cand me,
+  assoc self topo = Some (Some sf) -> mem_host sf [self] = false ->
+  assoc self (re_state env) = Some me ->
+  ns_repl_running me && match ns_slave me with Some rs => N.eqb (rs_source rs) sf | None => false end = false ->
+  assoc sf (re_state env) = Some cand -> source_healthy cfg cand = false ->
+  find_best_stream_from (S fuel) cfg env topo self [self] =
+  find_best_stream_from fuel cfg env topo self [sf; self].
+Proof. exact first_step_skips_unhealthy. Qed.
+Print Assumptions C16_first_step_skips_an_unhealthy_source_not_streamed_from.
